@@ -1,6 +1,7 @@
 import ZstdVerif.Model.Estimate
 import ZstdVerif.Model.DBuf
 import ZstdVerif.Model.Rep
+import ZstdVerif.Model.Frame
 import Driver.Util
 /-! line-protocol driver for the memory-budget models (C14): workspace reservations / estimates, decoder buffer sizing -/
 namespace Driver.Mem
@@ -47,6 +48,17 @@ def step (_ : Unit) (ws : List String) : Unit × String :=
     let r' := Rep.updateRep r ob ll0
     ((), s!"{ob} {r'.r0} {r'.r1} {r'.r2}")
   | ["codes", ll, ml] => ((), s!"{Rep.llCode ll.toNat!} {Rep.mlCode ml.toNat!}")
+  | "dseq" :: out :: whole :: frames =>
+    -- dseq <first output room> <whole stream in the first call 0|1> <hex frame> ... : buffer sizes after each frame through one context
+    let needs : List (Option (Nat × Nat)) := frames.map (fun h =>
+      let b := ByteArray.ofHex h
+      match Frame.getHeader b 0 b.size false with
+      | .ok hd =>
+        let bsm := hd.blockSizeMax
+        if singlePassOk hd.fcs out.toNat! (whole == "1") then none
+        else some (max bsm 4, decodingBufferSize (effectiveWindow hd.windowSize) hd.fcs bsm)
+      | _ => none)
+    ((), ",".intercalate ((bufSeq {} needs).map (fun b => s!"{b.inSize}:{b.outSize}")))
   | ["dbuf", hw, fcs, bsm, wmax, out, whole] =>
     match hw.toNat?, fcs.toInt?, bsm.toNat?, wmax.toNat?, out.toNat? with
     | some hw, some fcs, some bsm, some wmax, some out =>
